@@ -205,6 +205,25 @@ func (mi *MessageInfo) unmarshalPointerLazy(b []byte, p pointer, groupTag protow
 			(*lazy).SetBuffer(b)
 		}
 	}
+	if lazyDecode {
+		defer func() {
+			if err == nil {
+				return
+			}
+			// Unmarshaling failed half-way. The lazy fields skipped so far are
+			// marked as present, so install the index that locates them:
+			// without it, the first access to one of them would try to index
+			// the whole (invalid) buffer and panic.
+			if outOfOrder {
+				sort.Slice(lazyIndex, func(i, j int) bool {
+					return lazyIndex[i].FieldNum < lazyIndex[j].FieldNum ||
+						(lazyIndex[i].FieldNum == lazyIndex[j].FieldNum &&
+							lazyIndex[i].Start < lazyIndex[j].Start)
+				})
+			}
+			(*lazy).SetIndex(lazyIndex)
+		}()
+	}
 	// Track special handling of lazy fields.
 	//
 	// In the common case, all fields are lazyValidateOnly (and lazyFields remains nil).
